@@ -85,7 +85,13 @@ pub mod ipose {
         unsafe {
             static REAL: std::sync::OnceLock<usize> = std::sync::OnceLock::new();
             let f: WaitFn = std::mem::transmute(*REAL.get_or_init(|| libc::dlsym(libc::RTLD_NEXT, c"waitpid".as_ptr()) as usize));
-            let ret = f(pid, st, opt);
+            let mut ret = 0;
+            // (C14) a PTRACE_EVENT_CLONE status held back earlier is handed over now
+            if clone_order::ACTIVE.load(Ordering::Relaxed) { ret = clone_order::deliver_held(pid, st); }
+            if ret == 0 {
+                ret = f(pid, st, opt);
+                if clone_order::ACTIVE.load(Ordering::Relaxed) { ret = clone_order::after_wait(f, pid, st, ret); }
+            }
             if DELAY_MAX_US.load(Ordering::Relaxed) != 0 { let e = *libc::__errno_location(); delay(0x1000); *libc::__errno_location() = e; }
             if ENABLED.load(Ordering::Relaxed) {
                 let errno = *libc::__errno_location();
@@ -94,6 +100,78 @@ pub mod ipose {
                 *libc::__errno_location() = errno;
             }
             ret
+        }
+    }
+
+    /// (C14, additive; off unless `clone_order::track()` was called) order of the two notifications of a thread
+    /// creation.  The kernel reports PTRACE_EVENT_CLONE on the parent and the initial PTRACE_EVENT_STOP on the child,
+    /// and `waitpid(-1)` may return them in either order.  While tracking, every PTRACE_EVENT_CLONE returned by
+    /// `waitpid(-1)` is classified (`CF`: the child has not been returned by any `waitpid` yet, `SF_NATURAL`: it has).
+    /// `arm_child_first(n)`: for the next `n` clone events of the first kind the parent's status is put aside, the
+    /// child's own first stop is collected with `waitpid(child, __WALL)` and returned instead, and the put-aside status
+    /// is returned by the next `waitpid(-1 | parent)`.  Only genuine kernel statuses are handed out, in an order the
+    /// kernel itself may choose.
+    pub mod clone_order {
+        use std::sync::Mutex;
+        use std::sync::atomic::{AtomicBool, AtomicI32, AtomicU32, Ordering};
+        pub static ACTIVE: AtomicBool = AtomicBool::new(false);
+        static ARMED: AtomicU32 = AtomicU32::new(0);
+        static HELD_PID: AtomicI32 = AtomicI32::new(0);
+        static HELD_ST: AtomicI32 = AtomicI32::new(0);
+        static SEEN: Mutex<Vec<i32>> = Mutex::new(Vec::new());
+        pub static CF: AtomicU32 = AtomicU32::new(0);
+        pub static SF_NATURAL: AtomicU32 = AtomicU32::new(0);
+        pub static SF_FORCED: AtomicU32 = AtomicU32::new(0);
+        pub fn track() { ACTIVE.store(true, Ordering::Relaxed); }
+        pub fn arm_child_first(n: u32) { track(); ARMED.store(n, Ordering::Relaxed); }
+        pub fn disarm() { ARMED.store(0, Ordering::Relaxed); }
+        /// (clone-first, child-stop-first by itself, child-stop-first forced) since the last call
+        pub fn take_counts() -> (u32, u32, u32) {
+            (CF.swap(0, Ordering::Relaxed), SF_NATURAL.swap(0, Ordering::Relaxed), SF_FORCED.swap(0, Ordering::Relaxed))
+        }
+        pub(super) unsafe fn deliver_held(pid: libc::pid_t, st: *mut libc::c_int) -> libc::pid_t {
+            let hp = HELD_PID.load(Ordering::Relaxed);
+            if hp != 0 && (pid == -1 || pid == hp) {
+                HELD_PID.store(0, Ordering::Relaxed);
+                if !st.is_null() { unsafe { *st = HELD_ST.load(Ordering::Relaxed); } }
+                return hp;
+            }
+            0
+        }
+        pub(super) unsafe fn after_wait(f: super::WaitFn, pid: libc::pid_t, st: *mut libc::c_int, ret: libc::pid_t) -> libc::pid_t {
+            unsafe {
+                if ret <= 0 || st.is_null() { return ret; }
+                let s = *st;
+                let is_clone = pid == -1 && libc::WIFSTOPPED(s) && (s >> 8) == (libc::SIGTRAP | (libc::PTRACE_EVENT_CLONE << 8));
+                if !is_clone {
+                    let mut seen = SEEN.lock().unwrap();
+                    if !seen.contains(&ret) { seen.push(ret); }
+                    return ret;
+                }
+                // the real request, not the logging wrapper: the tracer is not to see this question
+                type PtraceFn = unsafe extern "C" fn(libc::c_uint, libc::pid_t, *mut libc::c_void, *mut libc::c_void) -> libc::c_long;
+                static REALP: std::sync::OnceLock<usize> = std::sync::OnceLock::new();
+                let p: PtraceFn = std::mem::transmute(*REALP.get_or_init(|| libc::dlsym(libc::RTLD_NEXT, c"ptrace".as_ptr()) as usize));
+                let mut child: libc::c_ulong = 0;
+                let rc = p(libc::PTRACE_GETEVENTMSG, ret, std::ptr::null_mut(), &mut child as *mut libc::c_ulong as *mut libc::c_void);
+                *libc::__errno_location() = 0;
+                if rc != 0 || child == 0 { return ret; }
+                let child = child as libc::pid_t;
+                let mut seen = SEEN.lock().unwrap();
+                if !seen.contains(&ret) { seen.push(ret); }
+                if seen.contains(&child) { SF_NATURAL.fetch_add(1, Ordering::Relaxed); return ret; }
+                if ARMED.load(Ordering::Relaxed) == 0 { CF.fetch_add(1, Ordering::Relaxed); return ret; }
+                let mut cst: libc::c_int = 0;
+                let r2 = f(child, &mut cst, libc::__WALL);
+                if r2 != child { CF.fetch_add(1, Ordering::Relaxed); return ret; }
+                seen.push(child);
+                ARMED.fetch_sub(1, Ordering::Relaxed);
+                HELD_PID.store(ret, Ordering::Relaxed);
+                HELD_ST.store(s, Ordering::Relaxed);
+                *st = cst;
+                SF_FORCED.fetch_add(1, Ordering::Relaxed);
+                r2
+            }
         }
     }
 
